@@ -646,6 +646,8 @@ func c12Concurrent(rc *RC) {
 		err              error
 		hdr              []byte
 		featNS           string
+		bind             bool
+		boundJID         string
 	}
 	ctx, cancel := context.WithTimeout(context.Background(), time.Minute)
 	rc.OnCleanup(cancel)
@@ -654,6 +656,10 @@ func c12Concurrent(rc *RC) {
 	// in half of the runs all sessions go through ONE negotiator value, as a server's sessions do, whose configuration
 	// function looks the session's features up by its connection: every receiving session has a feature of its own
 	shared := ch.Chance("workload", 1, 2)
+	// … and in a third of the runs the receiving sessions offer resource binding (one feature value for all of them):
+	// every client that asks for any resource must get one of its own
+	binds := ch.Chance("workload", 1, 3)
+	bindF := xmpp.BindResource()
 	byConn := map[net.Conn]*cs{}
 	sharedNeg := xmpp.NewNegotiator(func(s *xmpp.Session, _ *xmpp.StreamConfig) xmpp.StreamConfig {
 		if s == nil {
@@ -662,6 +668,9 @@ func c12Concurrent(rc *RC) {
 		c := byConn[s.Conn()]
 		if c == nil {
 			return xmpp.StreamConfig{}
+		}
+		if c.recv && c.bind {
+			return xmpp.StreamConfig{Lang: c.lang, Features: []xmpp.StreamFeature{bindF}}
 		}
 		if c.recv {
 			return xmpp.StreamConfig{Lang: c.lang, Features: []xmpp.StreamFeature{finFeatureNS(c.featNS, nil)}}
@@ -677,7 +686,15 @@ func c12Concurrent(rc *RC) {
 		rc.OnCleanup(func() { sut.Close(); peer.Close() })
 		all = append(all, c)
 		c.featNS = "urn:verif:fin"
+		c.bind = binds && c.recv
+		if c.bind {
+			c.origin = jid.MustParse("me@example.net") // several connections of one account
+			c.location = c.origin.Domain()
+		}
 		neg := xmpp.NewNegotiator(func(*xmpp.Session, *xmpp.StreamConfig) xmpp.StreamConfig {
+			if c.bind {
+				return xmpp.StreamConfig{Lang: c.lang, Features: []xmpp.StreamFeature{bindF}}
+			}
 			if c.recv {
 				return xmpp.StreamConfig{Lang: c.lang, Features: []xmpp.StreamFeature{finFeature(nil)}}
 			}
@@ -723,6 +740,17 @@ func c12Concurrent(rc *RC) {
 				if _, err := c.peer.Read(buf); err != nil {
 					return
 				}
+				if c.bind {
+					if bytes.Contains(c.sut.Out().Tap, []byte("</stream:features>")) && c.boundJID == "" {
+						c.boundJID = "?"
+						io.WriteString(c.peer, `<iq type='set' id='b1'><bind xmlns='urn:ietf:params:xml:ns:xmpp-bind'/></iq>`)
+					}
+					if t := c.sut.Out().Tap; bytes.Contains(t, []byte("</jid>")) {
+						i := bytes.Index(t, []byte("<jid>"))
+						c.boundJID = string(t[i+5 : bytes.Index(t, []byte("</jid>"))])
+					}
+					continue
+				}
 				if bytes.Contains(c.sut.Out().Tap, []byte("</stream:features>")) {
 					fmt.Fprintf(c.peer, `<fin xmlns='%s'/>`, c.featNS)
 				}
@@ -739,6 +767,24 @@ func c12Concurrent(rc *RC) {
 		}
 		return true
 	}, 60000, 2*time.Minute)
+	seenJID := map[string]int{}
+	for i, c := range all {
+		if !c.bind {
+			continue
+		}
+		if t := c.sut.Out().Tap; c.boundJID == "?" && bytes.Contains(t, []byte("</jid>")) {
+			k := bytes.Index(t, []byte("<jid>"))
+			c.boundJID = string(t[k+5 : bytes.Index(t, []byte("</jid>"))])
+		}
+		if c.boundJID == "" || c.boundJID == "?" {
+			continue
+		}
+		rc.Evals["C12.c7"]++
+		if j, dup := seenJID[c.boundJID]; dup {
+			rc.Failf("C12.c7", "bind-resource-not-fresh:concurrent", "sessions %d and %d of %d concurrent receiving sessions bound at the same time and answered with the same address %q: the random resource is not fresh", j, i, n, c.boundJID)
+		}
+		seenJID[c.boundJID] = i
+	}
 	for i, c := range all {
 		rc.Describe("session %d recv=%v origin=%q lang=%q header=%s", i, c.recv, c.origin.String(), c.lang, clip(string(c.hdr), 240))
 		j := bytes.Index(c.hdr, []byte("<stream:stream"))
